@@ -1,7 +1,9 @@
 SPECIFICATION Spec
 CONSTANTS
   NProms = {1, 2}
-  LayoutIds = {1, 2, 3}
+  LayoutIds = {1, 2, 3, 4}
+  Eols = {"lf", "crlf"}
+  Priors = {"none", "expired"}
   Rules = {2}
   Scopes = {"rule", "file"}
   OnlyBasePairs = FALSE
